@@ -52,6 +52,10 @@ class CallMixin(object):
             n = e.func.id
             if n == 'old':
                 return self.eval(fr.old_state_copy(), e.args[0])
+            if n == 'FOLD':
+                name = self.const_str(self.eval(st, e.args[0]))
+                k = self.eval(st, e.args[1])
+                return self.fold_value(name, Val.i(k.t))
             if n == 'implies':
                 c = self.truthy(st, self.eval(st, e.args[0]))
 
@@ -486,6 +490,11 @@ class CallMixin(object):
                 return self.str_method(st, self.lift(o), name, args, kwargs, line)
             raise EngineError('method %s on python object %r' % (name, type(o)))
         h = selfv.hint
+        if h is not None and h.kind == 'obj':
+            for cls in h.classes:
+                q = '%s.%s.%s' % (cls.__module__, cls.__qualname__, name)
+                if self.registry.get(q) is not None:
+                    return self.apply_contract(st, self.registry.get(q), None, [selfv] + args, kwargs, line)
         if h is not None and h.kind == 'opaque':
             self.trust('method calls on opaque objects (output streams etc.) have no effect on the modelled state')
             return V(fresh('opaque_' + name), None)
